@@ -422,6 +422,16 @@ theorem f64_div_add_mono (x x' d : F64) (hx : x.isFinite = true) (hx' : x'.isFin
 
 example : (F64.ofInt 7).isFinite = true ∧ 0 < (F64.ofInt 7).toRat := by decide +kernel
 
+/-- Further monotonicity: multiplication by a non-negative float, subtraction (monotone / antitone),
+    and `float64(·)` on integers. -/
+theorem f64_mul_sub_ofInt_mono (x x' y y' : F64) (hx : x.isFinite = true) (hx' : x'.isFinite = true)
+    (hy : y.isFinite = true) (hy' : y'.isFinite = true) (h : x.toRat ≤ x'.toRat) :
+    (0 ≤ y.toRat → F64.le (F64.mul x y) (F64.mul x' y) = true) ∧
+    (y'.toRat ≤ y.toRat → F64.le (F64.sub x y) (F64.sub x' y') = true) ∧
+    (∀ a b : Int, a ≤ b → F64.le (F64.ofInt a) (F64.ofInt b) = true) :=
+  ⟨fun hpos => F64.mul_mono_left hx hx' hy hpos h, fun h2 => F64.sub_mono hx hx' hy hy' h h2,
+   fun _ _ hab => F64.ofInt_mono hab⟩
+
 /-- **floor / ceil / trunc / round** (`math.Floor`, `math.Ceil`, `math.Trunc`, `math.Round`) of a
     finite float return *exactly* `⌊v⌋`, `⌈v⌉`, `v` truncated toward zero, and `v` rounded half away
     from zero — integer-valued floats bracketing the argument. -/
@@ -720,6 +730,20 @@ theorem hf_sqrt_call (c : Ctx) (a : Arg) (x : F64) (ha : Float.parseF (a.val c) 
     callHelper (Float.unaryF Float.hfStr) [a] c = .ok (Float.humanizeFloat x 4) ∧
     callHelper (Float.unaryF Float.sqrtStr) [a] c = .ok (Float.fmtF (F64.sqrt x)) := by
   rw [unaryF_call, unaryF_call, ha]; exact ⟨rfl, rfl⟩
+
+/-- `bytesize` / `bytesizesi` / `downscale`: below one step the integer is printed as is; otherwise the
+    scaling loop stops at or before the last unit (`units[rank]` never indexes out of range). -/
+theorem unitize_spec (n step precision : Int) (delim : Bytes) (units : List String) :
+    ((-step < n ∧ n < step) →
+      Float.unitize n step precision delim units = Strings.withUnit (itoa n) delim (units.headD "")) ∧
+    (∀ (fuel : Nat) (nf : F64), (Float.unitLoop (F64.ofInt step) (units.length - 1) fuel nf 0).2 ≤ units.length - 1) := by
+  constructor
+  · intro h
+    unfold Float.unitize
+    have : n > -step ∧ n < step := ⟨by omega, h.2⟩
+    simp [this]
+  · intro fuel nf
+    exact unitLoop_rank_le _ _ fuel nf 0 (by omega)
 
 example : Float.hfStr (F64.ofInt (-1234567)) = ascii "-1,234,567.0000" ∧
     Float.hfStr (F64.ofRat (999.99996)) = ascii "1000.0000" ∧
